@@ -86,3 +86,41 @@ prop("C11", static=[
     ("owned", "liquer.state_types.PickleStateType.copy", "pickled-values-are-copied-in-depth", "return"),
     ("owned", "liquer.state_types.BytesStateType.copy", "bytes-are-copied", "return"),
 ])
+
+
+# ------------------------------------------------------------------ the text and bytes codecs: encoder and decoder use the same codec
+classdef("liquer.state_types.TextStateType", fields={})
+classdef("liquer.state_types.BytesStateType", fields={})
+inline("liquer.state_types.TextStateType.default_extension", "liquer.state_types.TextStateType.default_mimetype")
+
+
+@contract("liquer.state_types.TextStateType.as_bytes", params=dict(self=Ref("TextStateType"), data=Str, extension=Opt(Str)), returns=Tuple(Bytes, Str),
+          opaque={"mimetype_from_extension": Str})
+def _(self, data, extension=None):
+    ensures(result[0] == str_encode(data, "utf-8"), "text-is-written-as-utf-8,whatever-the-extension")
+
+
+@contract("liquer.state_types.TextStateType.from_bytes", params=dict(self=Ref("TextStateType"), b=Bytes, extension=Opt(Str)), returns=Str)
+def _(self, b, extension=None):
+    ensures(result == bytes_decode(b, "utf-8"), "and-read-back-with-the-same-codec(no-byte-order-mark-handling,no-other-codec)")
+
+
+@contract("liquer.state_types.BytesStateType.as_bytes", params=dict(self=Ref("BytesStateType"), data=Bytes, extension=Opt(Str)), returns=Tuple(Bytes, Str),
+          opaque={"mimetype_from_extension": Str})
+def _(self, data, extension=None):
+    ensures(result[0] == data, "bytes-are-written-as-they-are")
+
+
+@contract("liquer.state_types.BytesStateType.from_bytes", params=dict(self=Ref("BytesStateType"), b=Bytes, extension=Opt(Str)), returns=Bytes)
+def _(self, b, extension=None):
+    ensures(result == b, "and-read-back-as-they-are")
+
+
+@lemma(params=dict(s=Str))
+def text_round_trip(s):
+    """from_bytes(as_bytes(s)) == s for the text codec, by the codec law of utf-8 (assumed for encodable texts)"""
+    ensures(bytes_decode(str_encode(s, "utf-8"), "utf-8") == s)
+
+
+prop("C11", fucs=["liquer.state_types.TextStateType.as_bytes", "liquer.state_types.TextStateType.from_bytes",
+                  "liquer.state_types.BytesStateType.as_bytes", "liquer.state_types.BytesStateType.from_bytes"], lemmas=["text_round_trip"])
